@@ -316,7 +316,7 @@ def gen_requests(ctx):
                      "ast": ast_re(e), "mode": "re", "expr": e})
         reqs.append({"kind": "witness-" + fid + "-xsd", "pat": print_re(e), "strs": [[ord(c) for c in s] for s in strs if "\n" not in s],
                      "ast": ast_re(e), "mode": "xsd", "expr": e})
-    n_expr = 60000 if thorough else 900
+    n_expr = 60000 if thorough else 700
     for i in range(n_expr):
         sigma, foreign = rng.choices(POOLS, WEIGHTS)[0]
         g = ReGen(rng, sigma, foreign)
@@ -368,7 +368,7 @@ def gen_requests(ctx):
                      "expect": "parse-error"})
     # mutations of well-formed patterns (either outcome is legal; implementation and model must agree)
     good = [r for r in reqs if r["ast"] is not None and r["mode"] == "re"]
-    for _ in range(6000 if thorough else 350):
+    for _ in range(6000 if thorough else 250):
         r = rng.choice(good)
         pat = list(r["pat"])
         for _ in range(rng.choice([1, 1, 2])):
@@ -521,6 +521,9 @@ def run_xp(ctx, xh, xm, found, texts, report, replay_group=None):
             oracle_hits[oracle] = oracle_hits.get(oracle, 0) + 1
             if oracle == "O7-replace-groups":
                 found.setdefault("F31", []).append(("xp", line, detail))
+                continue
+            if oracle == "F34-fixed-end":
+                found.setdefault("F34", []).append(("xp", line, detail))
                 continue
             if oracle == "F33-headchar":
                 found.setdefault("F33", []).append(("xp", line, detail))
@@ -850,6 +853,8 @@ def run(ctx):
         "F33": "the first-character pre-filter (switched off by option H) is not a necessary condition: a union containing '.' "
                "loses FC_ANY in Token::analyzeFirstCharacter, a literal starting with a supplementary character contributes its high "
                "surrogate, and Context::nextCh leaves matchStart on the low surrogate: (a|.)b misses \"zb\", [b-U+10000]+ misses U+10000",
+        "F34": "non-schema matches(s, &Match) on an expression that is a single literal (Boyer-Moore-only path): the end position "
+               "is start + length of the pattern TEXT, not of the literal: b{1} on \"b\" reports the window 0..4, \\. reports one too many",
         "F30": "malformed schema-mode expressions rejected with the wrong exception: `\\1` throws RuntimeException, an "
                "unpaired high surrogate throws a bare XMLErrs code instead of ParseException",
     }
